@@ -35,6 +35,7 @@ FirstN(s, n) == SubSeq(s, 1, IF Len(s) <= n THEN Len(s) ELSE n)
 
 Announce ==
     /\ IsEvent("announce")
+    /\ ("gated" \in DOMAIN E /\ E.gated) => Allows(E.t[2])
     /\ LET t      == <<E.t[1], E.t[2]>>
            status == Status(E.event, E.left)
            entry  == [seeder |-> status = "seeding", deadline |-> E.deadline, pid |-> 0]
@@ -68,12 +69,20 @@ Clean ==
     /\ ("dump" \in DOMAIN E) => DumpTorrents(E.dump) = DOMAIN store'
     /\ UNCHANGED <<cfg, list>>
 
+(* update_access_list: with mode off the file is not read and success is reported *)
 Reload ==
     /\ IsEvent("reload")
-    /\ IF E.file.kind = "good"
+    /\ IF cfg.mode = "off" THEN E.ok /\ list' = list
+       ELSE IF E.file.kind = "good"
        THEN E.ok /\ list' = SeqRange(E.file.hashes)
        ELSE ~E.ok /\ list' = list
     /\ UNCHANGED <<store, cfg>>
+
+(* an announce the gate refused: only for forbidden hashes, and nothing changes *)
+AnnounceRejected ==
+    /\ IsEvent("announce_rejected")
+    /\ ~Allows(E.t[2])
+    /\ UNCHANGED <<store, cfg, list>>
 
 Allowed ==
     /\ IsEvent("allowed")
@@ -84,7 +93,7 @@ DumpOK ==
     ("dump" \in DOMAIN E) => /\ DumpWellFormed(E.dump)
                               /\ DumpAbs(E.dump) = store'
 
-Next == (Reset \/ Announce \/ Scrape \/ Clean \/ Reload \/ Allowed) /\ DumpOK
+Next == (Reset \/ Announce \/ Scrape \/ Clean \/ Reload \/ Allowed \/ AnnounceRejected) /\ DumpOK
 
 Spec == Init /\ [][Next]_vars
 
